@@ -2062,7 +2062,9 @@ class ImportManager:
         for statement in imports)
     self.imports = []
     self.module_selectors = {}
-    self.names = set()
+    # With dynamic registration no import may bind the reserved name `gin`; a
+    # module called `gin` is imported under an alias instead.
+    self.names = {'gin'} if self.dynamic_registration else set()
     # Prefer to order `from` style imports first. The alias breaks ties between
     # several imports of one module in the same style, so that the result does
     # not depend on the iteration order of `imports` (a set).
